@@ -1,5 +1,6 @@
 import Proofs.Sync
 import Model.Session
+import Generated.Facts
 /-! # C11 — every request completes and gets its own response
 
 Model: the unordered-transaction table of `Model.Session` (`startTx`, `endTx`,
@@ -214,5 +215,12 @@ theorem C11_startTx_total (s : S) (tag : String) (f : Option (List Bytes)) (h : 
   · have := List.length_filter_le (fun _ : Tx => true) s.txs
     simp only [List.contains_nil, Bool.not_false]
     omega
+
+/-- REGENERATED FACT. The channel a Subscribe/Unsubscribe (`startTx`) and a Ping wait on for their response has room for one
+value, as the extractor reads it off the `make` calls on every run. The model's `answer` (a response that arrives before the
+request waits is kept as `early`) and `breakAll`/`releasePing` (the read routine hands out ErrBreak without waiting for the
+callers) presuppose exactly that: with no room, a request that took its quit branch would leave the read routine blocked in
+`breakAll` for ever, and with it every later request. -/
+theorem C11_fact_response_channels_have_room : Facts.syn_startTx_chanCap = "1" ∧ Facts.syn_Ping_chanCap = "1" := by decide
 
 end Model
